@@ -23,6 +23,10 @@ type TypeMethod struct {
 	Inputs            []MethodType
 	Outputs           []MethodType
 	ReceiverIsPointer bool // true if receiver is *T, false if T
+
+	// pkg is the path of the package an unexported method name belongs to
+	// (empty for exported names and for hand-built models)
+	pkg string
 }
 
 // MethodType represents a type in method signature
@@ -154,6 +158,7 @@ func extractMethodsFromNamedType(named *types.Named) []TypeMethod {
 			Inputs:            extractMethodTypesFromTuple(sig.Params(), sig.Variadic()),
 			Outputs:           extractMethodTypesFromTuple(sig.Results(), false),
 			ReceiverIsPointer: recvIsPointer,
+			pkg:               unexportedNamePkg(method),
 		})
 	}
 
